@@ -22,11 +22,36 @@ import (
 
 func TestMain(m *testing.M) { h.Main(m) }
 
+// memSel: selectors of in-memory re-rootings applied to the trees after parsing (set from the
+// case at the start of each check; cases are evaluated one at a time). The oracles of this
+// property do not depend on the rooting, but a tree re-rooted in memory is in a state (parent not
+// first among a node's neighbours) that no freshly parsed tree has.
+var memSel []int
+
+func mem(i int) int {
+	if len(memSel) == 0 {
+		return 0
+	}
+	return memSel[i%len(memSel)]
+}
+
+func parseMem(m *ref.Node, i int) (*tree.Tree, error) {
+	t, err := gt.FromModel(m)
+	if err != nil {
+		return nil, err
+	}
+	if err := gt.RerootInMemory(t, mem(i)); err != nil {
+		return nil, fmt.Errorf("Reroot failed: %v", err)
+	}
+	return t, nil
+}
+
 type Case struct {
 	Ref     *ref.Node   `json:"ref"`
 	RefAlt  *ref.Node   `json:"ref_alt"`
 	Boots   []*ref.Node `json:"boots"`
 	BootAlt []*ref.Node `json:"boots_alt"`
+	Mem     []int       `json:"mem,omitempty"` // in-memory re-rootings of the parsed trees (0 = none)
 }
 
 func baseOpts(thorough bool) gen.Opts {
@@ -92,13 +117,16 @@ func genCase(t *rapid.T, thorough bool) Case {
 	for _, b := range rapid.Permutation(c.Boots).Draw(t, "perm") {
 		c.BootAlt = append(c.BootAlt, present(t, b))
 	}
+	if rapid.Bool().Draw(t, "mem") {
+		c.Mem = rapid.SliceOfN(rapid.IntRange(0, 50), 1, 6).Draw(t, "memsel")
+	}
 	return c
 }
 
 func feed(models []*ref.Node) (<-chan tree.Trees, error) {
 	ch := make(chan tree.Trees, len(models)+1)
 	for i, m := range models {
-		t, err := gt.FromModel(m)
+		t, err := parseMem(m, i+1)
 		if err != nil {
 			return nil, err
 		}
@@ -239,7 +267,7 @@ func runOne(refm *ref.Node, boots []*ref.Node, tx *ref.Taxa, exp map[string]want
 		return s
 	}
 	// FBP
-	rt, err := gt.FromModel(refm)
+	rt, err := parseMem(refm, 0)
 	if err != nil {
 		return err
 	}
@@ -255,7 +283,7 @@ func runOne(refm *ref.Node, boots []*ref.Node, tx *ref.Taxa, exp map[string]want
 		return fmt.Errorf("FBP: %v%s", err, ctx())
 	}
 	// TBE, called like cmd/booster.go does
-	rt2, err := gt.FromModel(refm)
+	rt2, err := parseMem(refm, 0)
 	if err != nil {
 		return err
 	}
@@ -308,6 +336,8 @@ func runOne(refm *ref.Node, boots []*ref.Node, tx *ref.Taxa, exp map[string]want
 }
 
 func check(c Case) error {
+	memSel = c.Mem
+	defer func() { memSel = nil }()
 	tx, err := ref.NewTaxa(c.Ref.Tips())
 	if err != nil {
 		return err
